@@ -18,6 +18,7 @@ func init() {
 	// C14 — the cutting-planes strategy never changes an answer
 	register(&core.Check{
 		ID:          "C14",
+		Amplify:     amplifyAPI,
 		TraceModule: "APITrace",
 		Budget:      0,
 		Cases: func(env *core.Env) []core.Case {
